@@ -1,0 +1,13 @@
+//go:build verif
+
+package memory
+
+// VerifYield, when set, is called at the end of Storage.Get, after the value has been read
+// (verification harness only: a scheduling point at the storage boundary).
+var VerifYield func(key string)
+
+func verifYield(key string) {
+	if f := VerifYield; f != nil {
+		f(key)
+	}
+}
